@@ -51,14 +51,26 @@ def seq_literal(st, items, et):
 
 
 def seq_slice(st, s, es, lo, hi):
-    """s[lo:hi] with 0 <= lo <= hi <= s.n already normalised."""
+    """s[lo:hi] with 0 <= lo <= hi <= s.n already normalised.  The shifted array depends on (array, lo) only:
+    the same pair yields the same SMT array term (so two slices of one list from the same position are
+    recognisably the same sequence)."""
+    lo_s = z3.simplify(lo) if z3.is_expr(lo) else z3.IntVal(lo)
+    hi = hi if z3.is_expr(hi) else z3.IntVal(hi)
+    if z3.is_int_value(lo_s) and lo_s.as_long() == 0:
+        return SeqV(s.arr, z3.simplify(hi - 0) if False else hi)
+    cache = st.ghost.setdefault('$slice_cache', {})
+    key = (s.arr.get_id(), lo_s.get_id())
+    if key in cache:
+        arr = cache[key][0]
+        return SeqV(arr, hi - lo)
     r = seq_fresh(st, es, 'slice')
+    cache[key] = (r.arr, s.arr, lo_s)
+    r = SeqV(r.arr, hi - lo)
     k = z3.Int('k!sl')
-    st.assume(r.n == hi - lo)
-    st.assume(z3.ForAll([k], z3.Implies(z3.And(0 <= k, k < r.n),
+    st.assume(z3.ForAll([k], z3.Implies(z3.And(0 <= k, k + lo < s.n),
                                         z3.Select(r.arr, k) == z3.Select(s.arr, k + lo)),
                         patterns=[z3.Select(r.arr, k)]))
-    st.assume(z3.ForAll([k], z3.Implies(z3.And(lo <= k, k < hi),
+    st.assume(z3.ForAll([k], z3.Implies(z3.And(lo <= k, k < s.n),
                                         z3.Select(r.arr, k - lo) == z3.Select(s.arr, k)),
                         patterns=[z3.Select(s.arr, k)]))
     return r
@@ -122,10 +134,12 @@ def seq_remove_at(st, s, es, p):
 
 def seq_eq(a, b):
     k = z3.Int('k!eq')
-    return z3.And(a.n == b.n,
-                  z3.ForAll([k], z3.Implies(z3.And(0 <= k, k < a.n),
-                                            z3.Select(a.arr, k) == z3.Select(b.arr, k)),
-                            patterns=[z3.Select(a.arr, k)]))
+    body = z3.Implies(z3.And(0 <= k, k < a.n), z3.Select(a.arr, k) == z3.Select(b.arr, k))
+    try:
+        q = z3.ForAll([k], body, patterns=[z3.Select(a.arr, k)])
+    except z3.Z3Exception:
+        q = z3.ForAll([k], body)       # the array term contains if-then-else: let the solver choose triggers
+    return z3.And(a.n == b.n, q)
 
 
 def seq_contains(st, s, x):
@@ -277,6 +291,10 @@ def get_slice(st, obj, lo, hi):
     E = _ex()
     if obj.t.kind == 'union':
         obj = E.concretize(st, obj)
+    if lo is not None and lo.t.kind == 'union':
+        lo = E.concretize(st, lo)
+    if hi is not None and hi.t.kind == 'union':
+        hi = E.concretize(st, hi)
     k = obj.t.kind
     if k == 'ref' and obj.t.name == 'memoryview':
         # a sub-view onto the same buffer
@@ -320,7 +338,8 @@ def set_item(st, obj, idx, val):
         E.check_or_raise(st, is_real_list(obj.z), 'TypeError')
         E.check_frame_contents(st, obj.z)
         s = st.list_seq(obj.z, et)
-        i = norm_index(st, idx, s.n)
+        i = st.fresh(I, 'setidx')          # named: if-then-else terms cannot occur in quantifier patterns
+        st.assume(i == norm_index(st, idx, s.n))
         E.check_or_raise(st, z3.And(0 <= i, i < s.n), 'IndexError')
         st.list_store(obj.z, et, SeqV(z3.Store(s.arr, i, st.coerce(val, et).z), s.n))
         return
@@ -794,7 +813,7 @@ _GLOBAL_FUNCS = ('len', 'isinstance', 'set', 'list', 'dict', 'tuple', 'sorted', 
                  'unchanged', 'index_of', 'str_index', 'subseq', 'substr', 'str_len', 'setv',
                  'union_of', 'same_elems', 'is_fresh', 'seq_map_eq', 'let', 'emp', 'char_at',
                  'is_digit_str', 'str_to_int', 'concat_seq', 'mkseq', 'is_list', 'store', 'dict_has', 'dict_get',
-                 'dict_keys', 'implies_all', 'remove_positions', 'trig', 'same', 'dict_index', 'allocated', 'ncalls', 'call_arg', 'call_result', 'in_timeout_scope', 'nraised', 'str_prefix', 'pure_IO_encrypted_of', 'py_lower', 'substr_after_last', 'py_int_ok', 'py_int_val')
+                 'dict_keys', 'implies_all', 'remove_positions', 'trig', 'same', 'dict_index', 'allocated', 'ncalls', 'call_arg', 'call_result', 'in_timeout_scope', 'nraised', 'str_prefix', 'pure_IO_encrypted_of', 'py_lower', 'substr_after_last', 'py_int_ok', 'py_int_val', 'py_join_seq')
 
 
 def global_object_val(st, nm):
